@@ -1,15 +1,7 @@
 """Per-property MANIFEST texts (kept next to the registry so that MANIFEST.json can be regenerated)."""
-HOOK_COMMITS = []
+HOOK_COMMITS = ["b6d926e", "30f5128", "ca0b5bf", "b10ca6f"]
 NOTES = ("Technique family: property-based testing and fuzzing (rapidcheck, libFuzzer, sanitizers). "
          "Every check is ./check <id>; it rebuilds /repo's working tree incrementally with hooks on, runs a replay tier "
          "(corpus/<id>/regress, known-finding probes) and a generated-input search tier, and rewrites evidence/<id>.json. "
          "Known findings and fixes are listed in known_findings.json.")
 NOT_APPLICABLE = {}
-META = {
-    "C07": {
-        "design_ref": "DESIGN.md section 4, C07",
-        "technique": "model-based stateful PBT (rapidcheck) + coverage-guided fuzzing (libFuzzer) of the same op-stream against a std::string FIFO reference model, under ASan/UBSan",
-        "level_text": "Generated operation histories on up to 4 Buffer variables (all public operations, boundary-biased sizes, all initial capacities) are compared after every step with a FIFO reference model (size and full content, fetch results, copy independence, moved-from/reset emptiness); ASan with exact-size source/destination blocks catches out-of-storage accesses. Exploration only: no counter-example among N generated histories.",
-        "level_note": "Trusted: the reference model (std::string per variable), ASan/UBSan instrumentation, the harness's clamp of over-committed hasWritten() to writableSize() as documented in the header. Sizes are bounded to 1 MiB per operation. memcpy(_, nullptr, 0) is not flagged.",
-    },
-}
